@@ -167,6 +167,13 @@ def user_criteria(case, unit):
         elif kind == 'seeds':
             coords = np.unravel_index(np.array(c[1], dtype=int), shape)
             fs.append(pruning.contains_seeds(tuple(np.asarray(x) for x in coords)))
+        elif kind == 'npixget':
+            n = c[1]
+            # the cached pixel count alone decides
+            fs.append(lambda s, index=None, value=None, n=n: s.get_npix() >= n)
+        elif kind == 'udelta':
+            md_ = Fraction(c[1], 2 ** case['fb'])
+            fs.append(pruning.min_delta(int(md_) if md_.denominator == 1 else float(md_)))
         elif kind == 'npixacc':
             n = c[1]
             # a user criterion reading accessors of the leaf under test (docs/advanced.rst pattern)
@@ -191,8 +198,10 @@ def crit_string(case, mind=None, minn=None):
             parts.append('sum:%d' % c[1])
         elif kind == 'seeds':
             parts.append('seeds:%s' % (','.join(str(x) for x in c[1]) if c[1] else '-'))
-        elif kind == 'npixacc':
+        elif kind in ('npixacc', 'npixget'):
             parts.append('npix:%d' % c[1])
+        elif kind == 'udelta':
+            parts.append('delta:%d' % c[1])
     return ';'.join(parts)
 
 
